@@ -518,6 +518,20 @@ impl Check for C10 {
         "C10"
     }
 
+    fn declared_probes(&self) -> Vec<&'static str> {
+        vec![
+            "fault.adversarial-stream-words",
+            "fault.empty-or-inverted-range-outside",
+            "fault.index-outside-genome",
+            "fault.range-outside-genome",
+            "fault.unequal-parent-lengths",
+            "probe.empty-parents",
+            "probe.empty-segment",
+            "probe.segment-touches-end",
+            "probe.segment-touches-start",
+        ]
+    }
+
     fn rule(&self) -> String {
         format!(
             "(1) exhaustively enumerated exchange primitives on bitstrings: crossover_gene / crossover_segment for all length pairs <= 5 x all \
